@@ -502,6 +502,7 @@ package s3db
 //@   requires vtOK(c)
 //@   modifies c.txStart, puts, deletes, deleteFailures, lastPutPrefix, lastPutName, lastPutOK, *c.Tree.Root.crdt.Mast, c.Tree.Root.mergedRoots, c.Tree.Root.crdt.MergeSources, c.Tree.Root.crdt.Source, c.Tree.Root.tombstoned
 //@   ensures success: imp(result == nil, c.txStart == nil)
+//@   ensures success-means-the-version-was-published: imp(result == nil && !old(noop(c.Tree.Root)), c.Tree.Root.crdt.Source != nil && !c.Tree.Root.tombstoned && len(c.Tree.Root.crdt.MergeSources) == 1 && c.Tree.Root.crdt.MergeSources[0] == *c.Tree.Root.crdt.Source && puts > old(puts))
 //@   ensures failure-keeps-snapshot: imp(result != nil, c.txStart == old(c.txStart) && deletes == old(deletes))
 //@   ensures readonly: imp(c.Tree.Root.readonly, puts == old(puts) && deletes == old(deletes))
 
